@@ -2,6 +2,7 @@ import NunVerif.Model.Session
 import NunVerif.Model.Oplog
 import NunVerif.Model.Repl
 import NunVerif.Model.Cluster
+import NunVerif.Model.Election
 /-
   Line-protocol driver: one operation per input line, canonical output lines per operation.
   The Rust harness (`nvh`) produces the same lines from the real implementation.
@@ -165,6 +166,10 @@ structure World where
   supQueue : List Bytes := []
   links : List (Bytes × Bool) := []          -- connections opened by this node, in creation order (peer, as primary)
   linkOut : List (Bytes × Bytes) := []       -- lines queued on them (peer, line), oldest first
+  /-- coroutine mode (C07): commands that reach start_election park in its wait loops -/
+  co : Bool := false
+  cos : List (Nat × ECo × Option Bytes × String) := []   -- id ↦ (where parked, replication message due after the election, reply)
+  nextCo : Nat := 0
   /-- crash window (C16): between `MARK begin` and `MARK end` every write to the metadata files is listed -/
   xtrace : Bool := false
   xbase : Option (Meta × Node) := none
@@ -242,6 +247,45 @@ def pumpSup (w : World) : World × List String :=
     | (n', .panic _) => ({ w with node := n' }, vs ++ [s!"V {esc msg}"], ks, true)) ({ w with supQueue := [] }, [], [], false)
   (w, vs ++ (if dead then ["K PANIC supervisor"] else []) ++ ks)
 
+def electionTimeout : Nat := 10
+
+def mayElect (cmd : Bytes) (isPrimary : Bool) : Bool :=
+  match Bytes.splitAll 32 cmd with
+  | w0 :: rest =>
+    w0 = b!"join" || w0 = b!"leave" || (w0 = b!"set-primary" && isPrimary) ||
+    (w0 = b!"election" && rest.head? = some b!"candidate") || (w0 = b!"debug" && rest.head? = some b!"force-election")
+  | [] => false
+
+/-- finish a coroutine: the replication message the command owes after its election, then the reply -/
+def coFinish (w : World) (id : Nat) (post : Option Bytes) (resp : String) (evs : List Ev) : World × List String :=
+  let (n, evsP) := match post with
+    | some msg => w.node.replicateWeb msg
+    | none => (w.node, [])
+  let (w, shown) := absorb { w with node := n } (evs ++ evsP)
+  (w, [s!"Y done {id}", resp] ++ evLines shown)
+
+/-- a command (already executed with the election deferred) whose election now starts -/
+def coStart (w : World) (n : Node) (resp : String) (evs : List Ev) (holdPost : Bool) : World × List String :=
+  let id := w.nextCo
+  let w := { w with nextCo := id + 1 }
+  let n := { n with deferElection := false }
+  if n.electionRequested then
+    let n := { n with electionRequested := false }
+    -- the replication of the command itself (leave / election) happens after start_election returns
+    let lastRepl := (evs.filterMap fun e => match e with | .repl l => some l | _ => none).getLast?
+    let post : Option Bytes := if holdPost then lastRepl.map (fun l => ((Bytes.splitn 32 3 l)[2]?).getD []) else none
+    let evs := if holdPost then
+        match lastRepl with
+        | some l => evs.filter (fun e => e != Ev.repl l)
+        | none => evs
+      else evs
+    let (n, evs2, co) := n.electionBegin electionTimeout
+    if co = .done then coFinish { w with node := n } id post resp (evs ++ evs2)
+    else
+      let (w, shown) := absorb { w with node := n } (evs ++ evs2)
+      ({ w with cos := w.cos ++ [(id, co, post, resp)] }, [s!"Y parked {id} {co.site}"] ++ evLines shown)
+  else coFinish { w with node := n } id none resp evs
+
 def step (w : World) (line : String) : World × List String :=
   let bs := toBytes line
   let parts := Bytes.splitn 32 3 bs
@@ -258,7 +302,7 @@ def step (w : World) (line : String) : World × List String :=
     -- every node has its own range of operation ids
     let n0 := freshNodeAt role w.node.clock
     let n := { n0 with addr := name, pid := pid }
-    ({ node := n, oplog := {}, pump := opts.contains b!"pump", sup := opts.contains b!"sup" }, ["# reset"] ++ dumpNode n)
+    ({ node := n, oplog := {}, pump := opts.contains b!"pump", sup := opts.contains b!"sup", co := opts.contains b!"co" }, ["# reset"] ++ dumpNode n)
   | "SESS" =>
     match Bytes.parseNat a1 with
     | some sid =>
@@ -270,6 +314,13 @@ def step (w : World) (line : String) : World × List String :=
     | some sid =>
       -- a command on an unknown session id opens the session first (as the harness does)
       let n0 := if (AL.get? w.node.sessions sid).isNone then w.node.setSession sid {} else w.node
+      if w.co && mayElect (unesc a2) n0.isPrimary then
+        let cmd := unesc a2
+        let (n, r, evs) := ({ n0 with deferElection := true, electionRequested := false } : Node).exec sid cmd
+        let hold := Bytes.startsWith cmd b!"leave" || Bytes.startsWith cmd b!"election"
+        let (w, outs) := coStart w n (respStr r) evs hold
+        (w, outs ++ dumpNode w.node)
+      else
       let (n, r, evs) := n0.exec sid (unesc a2)
       let w := recordNotices { w with node := n } evs
       let (w, shown) := absorb w evs
@@ -298,6 +349,11 @@ def step (w : World) (line : String) : World × List String :=
     match Bytes.parseNat a1 with
     | some sid =>
       if (AL.get? w.node.sessions sid).isNone then (w, ["E bad-op"]) else
+      if w.co && (match (w.node.session sid).member with | some (_, r) => r = .primary | none => false) then
+        let (n, evs) := ({ w.node with deferElection := true, electionRequested := false } : Node).tcpClose sid
+        let (w, outs) := coStart w n "R ok" (evs.filter (evNotForSid sid)) true
+        (w, outs ++ dumpNode w.node)
+      else
       let (n, evs) := w.node.tcpClose sid
       let (w, shown) := absorb { w with node := n } evs
       (w, evLines (shown.filter (evNotForSid sid)) ++ dumpNode n)
@@ -368,7 +424,27 @@ def step (w : World) (line : String) : World × List String :=
       let n := w.node.setSession sid { auth := true, member := some (a2, .secoundary) }
       ({ w with node := n }, dumpNode n)
     | none => (w, ["E bad-op"])
+  | "RESUME" =>
+    match Bytes.parseNat a1 with
+    | some id =>
+      match w.cos.find? (·.1 = id) with
+      | some (_, co, post, resp) =>
+        let (n, evs, co') := w.node.electionResume electionTimeout co
+        let w := { w with node := n, cos := w.cos.filter (·.1 != id) }
+        if co' = .done then
+          let (w, outs) := coFinish w id post resp evs
+          (w, outs ++ dumpNode w.node)
+        else
+          let (w, shown) := absorb w evs
+          ({ w with cos := w.cos ++ [(id, co', post, resp)] }, [s!"Y parked {id} {co'.site}"] ++ evLines shown ++ dumpNode w.node)
+      | none => (w, ["E no-such-coroutine"])
+    | none => (w, ["E bad-op"])
   | "ELECT" =>
+    if w.co then
+      let n := if w.node.isEligible then { w.node with electionRequested := true } else { w.node with electionRequested := false }
+      let (w, outs) := coStart w n "R ok" [] false
+      (w, outs ++ dumpNode w.node)
+    else
     let (n, evs) := if w.node.isEligible then w.node.startElection else (w.node, [])
     let (w, shown) := absorb { w with node := n } evs
     (w, "R ok" :: evLines shown ++ dumpNode n)
